@@ -2,7 +2,7 @@
 # seedtry.sh <patch.diff> <property>... : like mutest.sh but prints the non-discharged part of each check's output (for rule development)
 set -u
 patch="$(readlink -f "$1")"; shift
-export GOFLAGS=-mod=mod GOPROXY=off
+export GOFLAGS="-mod=mod -trimpath" GOPROXY=off
 T=$(mktemp -d "${TMPDIR:-/tmp}/emcheck-try-XXXXXX")
 trap 'rm -rf "$T"' EXIT
 mkdir -p "$T/repo" "$T/verif"
